@@ -1,13 +1,16 @@
 import Driver.Graph
+import Driver.Conc
 /-! `godi_model`: reads the line protocol on stdin, prints one observation per line. -/
 open Driver
 
 structure St where
   g : Godi.Graph.Graph := {}
+  k : Driver.ConcD.St := {}
 
 def stepLine (s : St) (line : String) : St × String :=
   match words line with
   | "g" :: rest => let (g, o) := GraphD.step s.g rest; ({ s with g := g }, o)
+  | "k" :: rest => let (k, o) := ConcD.step s.k rest; ({ s with k := k }, o)
   | "#" :: _ => (s, "#")
   | [] => (s, "")
   | _ => (s, "bad-op")
